@@ -47,6 +47,7 @@ EXTRA = [
     "xs:dateTime('2000-01-01T00:00:00') - xs:dateTime('1999-12-31T00:00:00')", "implicit-timezone()",
     "contains('abc', 'B', 'http://www.w3.org/2005/xpath-functions/collation/html-ascii-case-insensitive')",
     "random-number-generator(42)?number", "random-number-generator(7)?number", "random-number-generator(7)?permute(1 to 5)",
+    "default-collation()", "compare('a', 'B')", "string-join(sort(('b', 'a', 'C', 'ä')), ',')", "max(('a', 'B', 'c'))",
 ]
 COLLATION_EXPRS = [
     "compare('a', 'B', '%s')", "string-join(sort(('b', 'a', 'C', 'ä'), '%s'), ',')", "distinct-values(('a', 'A', 'b'), '%s')",
@@ -68,7 +69,9 @@ FAMILIES = {
                  "matches('xml:id', concat('^\\i\\c*$', substring(name(/*), 99)))", "matches('é', concat('^\\p{L}$', substring(name(/*), 99)))",
                  "matches('A1', concat('^[\\p{Lu}\\d]+$', substring(name(/*), 99)))", "matches('_x', concat('^[^\\W]+$', substring(name(/*), 99)))",
                  "matches('a-b', concat('^[\\w-[_]]+-[\\w]+$', substring(name(/*), 99)))", "count(tokenize('a, b;c', concat('[\\W\\s]+', substring(name(/*), 99))))",
-                 "matches('α', concat('^\\p{IsGreek}$', substring(name(/*), 99)))", "replace('ab12', concat('[\\D]', substring(name(/*), 99)), '#')"],
+                 "matches('α', concat('^\\p{IsGreek}$', substring(name(/*), 99)))",
+                 "matches('abc', concat('\\p{IsNoBlock}', substring(name(/*), 99)))", "matches('abc', concat('^\\P{IsNoBlock}+$', substring(name(/*), 99)))",
+                 "matches('abc', concat('[\\p{IsNoBlock}a]', substring(name(/*), 99)))", "replace('ab12', concat('[\\D]', substring(name(/*), 99)), '#')"],
     'serial': ["serialize((//a)[1])", "parse-xml('<z><y>1</y></z>')//y/string()", "serialize(map{'a': 1}, map{'method': 'json'})",
                "json-to-xml('{\"a\": [1, 2]}')//*:number/string()", "xml-to-json(json-to-xml('[1, true, null]'))",
                "serialize(parse-xml('<p:z xmlns:p=\"urn:q\"/>'))"],
@@ -123,6 +126,12 @@ def gen_case(rng, tier):
             if family == 'collation':
                 # every thread switches the process locale: contention on the collation lock
                 loc = rng.choice((installed or ['C.UTF-8']) + ['C', 'C.UTF-8', 'POSIX'])
+                if rng.random() < 0.3:
+                    # an evaluation that relies on the default collation of its own (maybe just created) parser
+                    prog.append({'expr': rng.choice(["default-collation()", "compare('a', 'B')", "max(('a', 'B', 'c'))",
+                                                     "string-join(sort(('b', 'a', 'C', 'ä')), ',')"]),
+                                 'v': '3.1', 'doc': 0, 'lazy': False, 'tz': None})
+                    continue
                 prog.append({'expr': rng.choice(COLLATION_EXPRS) % loc, 'v': '3.1', 'doc': 0, 'lazy': rng.random() < 0.3,
                              'tz': None})
             else:
@@ -134,7 +143,7 @@ def gen_case(rng, tier):
                         {'kind': 'seam'}])
     strat['seed'] = rng.randrange(1 << 30)
     return {'config': {'installed': installed, 'strategy': strat, 'shared_doc': rng.random() < 0.3,
-                       'warm': rng.random() < 0.3, 'vars': {k: v[0] for k, v in X.VARIABLE_SPECS.items()}},
+                       'warm': rng.random() < 0.3, 'build_in_thread': rng.random() < (0.7 if family == 'collation' else 0.3), 'vars': {k: v[0] for k, v in X.VARIABLE_SPECS.items()}},
             'threads': threads}
 
 
@@ -268,10 +277,17 @@ def run_case(case, world):
                 snap = (c0.prec, c0.rounding, c0.Emin, c0.Emax)
                 for i, ev in enumerate(case['threads'][t]):
                     key = (t if not cfg.get('shared_doc') else 0, ev['doc'])
-                    if isinstance(selectors[(t, i)], list):
-                        results['%d.%d' % (t, i)] = selectors[(t, i)]
+                    sel_ = selectors[(t, i)]
+                    if cfg.get('build_in_thread'):
+                        # the Selector (and its parser) is created by the thread, while the others evaluate
+                        try:
+                            sel_ = elementpath.Selector(ev['expr'], parser=parser_class(ev['v']))
+                        except Exception as e:
+                            sel_ = ['construction-failed', canon_exc(e)]
+                    if isinstance(sel_, list):
+                        results['%d.%d' % (t, i)] = sel_
                         continue
-                    results['%d.%d' % (t, i)] = do_eval(selectors[(t, i)], roots[key], ev, cfg)
+                    results['%d.%d' % (t, i)] = do_eval(sel_, roots[key], ev, cfg)
                 c1 = decimal.getcontext()
                 dec_ok[t] = snap == (c1.prec, c1.rounding, c1.Emin, c1.Emax)
             return fn
